@@ -207,7 +207,7 @@ def _check(prop, tier, seed, py, modname, plan, scratch, ev_path, t0):
                     cond['status'] = 'refuted_as_required'
                 else:
                     harness_errors.append('twin %s: counterexample did not reproduce natively: %s' % (sid, json.dumps(doc)[:500]))
-            elif st in ('not_exhausted', 'killed', 'skipped'):
+            elif st in ('not_exhausted', 'killed', 'skipped', 'setup_failed_in_lark'):
                 cond['status'] = 'twin_' + st
                 all_exhausted = False
             else:
@@ -234,6 +234,23 @@ def _check(prop, tier, seed, py, modname, plan, scratch, ev_path, t0):
                 harness_errors.append('slice %s: recorded finding %s met under tracing did not reproduce natively' % (sid, fkey))
         if st == 'confirmed':
             pass
+        elif st == 'setup_failed_in_lark':
+            out2 = os.path.join(scratch, 'setup_%d.json' % len(conditions))
+            e2 = _child_env(s.get('params', {}), twin=False, native=True)
+            try:
+                subprocess.run([py, '-m', 'vfw.replay', t['cmd'][3], '__setup__', '[]', out2], env=e2, cwd=ROOT, timeout=300,
+                               stdout=subprocess.DEVNULL, stderr=subprocess.DEVNULL)
+                with open(out2) as f:
+                    nat = json.load(f)
+            except Exception as ex:
+                nat = {'error': repr(ex)}
+            if nat.get('ok') is False and nat.get('in_lark'):
+                doc = {'property': prop, 'kind': 'slice', 'module': t['cmd'][3], 'func': '__setup__', 'params': s.get('params', {}), 'twin': False, 'args': [],
+                       'native': nat}
+                triage(nat['rec']['fkey'], nat['rec']['why'], doc)
+                cond['status'] = 'refuted'
+            else:
+                harness_errors.append('slice %s: set-up failed under the worker but not natively: %s' % (sid, (r.get('error') or '')[-800:]))
         elif st == 'refuted':
             ok, doc = _replay(py, t, r, scratch, twin=False)
             rec = (doc.get('native') or {}).get('rec') or {}
